@@ -262,11 +262,21 @@ def run_mode(case):
                 if ref1 is R.NOVALUE:
                     add(f"C19:{m.name}:group1-undecodable-after", f"{what}: group 1 now holds {g1.hex()}, which does not decode")
                     continue
+                if v2 and ref1["schedule_type"] not in (0, 6):
+                    # group 1 has to be an ECO MODE group (type 0, or 6 on the 745 platform): a 24/7 enabled group of
+                    # another schedule type (dry contact, peak shaving, backup, smart charge) is not the requested mode
+                    add(f"C19:{m.name}:group1-not-eco-type", f"{what}: group 1 {g1.hex()} is written with schedule type "
+                        f"{ref1['schedule_type']}, not as an eco mode group")
                 human = R.schedule_power_human(ref1["schedule_type"], ref1["power"]) if v2 else ref1["power"]
                 if human != want:
                     add(f"C19:{m.name}:power", f"{what}: group 1 {g1.hex()} decodes to power {human}, requested {want}")
-                if v2 and m == gw.OperationMode.ECO_CHARGE and ref1["soc"] != s:
-                    add(f"C19:{m.name}:soc", f"{what}: group 1 {g1.hex()} decodes to SoC {ref1['soc']}, requested {s}")
+                if v2 and ref1["soc"] != s:
+                    # 'decodes to the requested power and SoC' is stated for both emulated modes
+                    fixed = ":always-100" if m == gw.OperationMode.ECO_DISCHARGE and ref1["soc"] == 100 else ""
+                    add(f"C19:{m.name}:soc{fixed}", f"{what}: group 1 {g1.hex()} decodes to SoC {ref1['soc']}, requested {s}")
+                if not v2 and s != 100:
+                    add(f"C19:{m.name}:soc:8-byte-group-has-no-soc",
+                        f"{what}: group 1 {g1.hex()} is an 8-byte group without a SoC field; the requested SoC {s} is dropped")
                 if not is_247(ref1):
                     add(f"C19:{m.name}:not-24/7", f"{what}: group 1 {g1.hex()} is not an all-day, every-day, enabled group")
                 for i in (1, 2, 3):
